@@ -24,20 +24,31 @@ package db
 //@   iface
 //@   trusted
 //@   pure
+// bk_set_*: the bucket, key and value of the most recent Bucket.Set and the number of Set calls
+//@ smt all (declare-ghost bk_set_on Iface)
+//@ smt all (declare-ghost bk_set_key Slice)
+//@ smt all (declare-ghost bk_set_val Slice)
+//@ smt all (declare-ghost bk_set_n Int)
 //@ func (b Bucket) Set(key, value) (err)
 //@   iface
 //@   trusted
 //@   pure
+//@   opt ghost:bk_set_on b
+//@   opt ghost:bk_set_key key
+//@   opt ghost:bk_set_val value
+//@   opt ghost:bk_set_n ghost(bk_set_n) + 1
 //@ func (b Bucket) Delete(key) (err)
 //@   iface
 //@   trusted
 //@   pure
 //@ smt all (declare-ghost real_bucket Iface)
+//@ smt all (declare-ghost real_bucket_id Str)
 //@ func (d Database) GetBucket(id) (b, err)
 //@   iface
 //@   trusted
 //@   pure
 //@   opt ghost:real_bucket b
+//@   opt ghost:real_bucket_id id
 
 // the overlay entry of a key: the list element the map holds and the item stored in it
 //@ spec ovHas(bk, k) = bk.data != nil && hasmap(bk.data)[k]
@@ -63,7 +74,7 @@ package db
 //@ func (bk *layerBucket) Set(key, value) (err)
 //@   arith int
 //@   requires bkInv(bk)
-//@   modifies bk.data[*], all(layerBucketItem.value), all(list.Element.next), all(list.Element.prev), all(list.Element.list), all(layerBucketItems.List)
+//@   modifies bk.data[*], all(layerBucketItem.value), all(list.Element.next), all(list.Element.prev), all(list.Element.list), all(layerBucketItems.List), ghost(bk_set_on), ghost(bk_set_key), ghost(bk_set_val), ghost(bk_set_n)
 //@   callpre Set: bk.data == nil
 //@   ensures [stored] bk.data != nil ==> err == nil && ovHas(bk, str(key)) && ovItem(bk, str(key)).value != nil && len(ovItem(bk, str(key)).value) == len(value) && (forall i int :: {value[i]} 0 <= i && i < len(value) ==> ovItem(bk, str(key)).value[i] == value[i])
 //@   ensures [others] forall k str :: {hasmap(bk.data)[k]} k != str(key) ==> hasmap(bk.data)[k] == old(hasmap(bk.data)[k]) && (hasmap(bk.data)[k] ==> valmap(bk.data)[k] == old(valmap(bk.data)[k]) && ovItem(bk, k).value == old(ovItem(bk, k).value))
@@ -83,7 +94,7 @@ package db
 //@ func (ldb *layerDB) GetBucket(id) (b, err)
 //@   arith int
 //@   requires ldb != nil && ldb.real != nil && ldb.buckets != nil
-//@   modifies ldb.buckets[*], ghost(real_bucket)
+//@   modifies ldb.buckets[*], ghost(real_bucket), ghost(real_bucket_id)
 //@   ensures [existing] old(hasmap(ldb.buckets)[id]) ==> err == nil && typeof(b) == typeid(ptr_layerBucket) && as(ptr_layerBucket, b) == old(valmap(ldb.buckets)[id])
 //@   ensures [passthrough] !old(hasmap(ldb.buckets)[id]) && err == nil && ldb.flushed ==> b == ghost(real_bucket) && !hasmap(ldb.buckets)[id]
 //@   ensures [overlay] !old(hasmap(ldb.buckets)[id]) && err == nil && !ldb.flushed ==> typeof(b) == typeid(ptr_layerBucket) && fresh(as(ptr_layerBucket, b)) && as(ptr_layerBucket, b).real == ghost(real_bucket) && as(ptr_layerBucket, b).data != nil && hasmap(ldb.buckets)[id] && valmap(ldb.buckets)[id] == as(ptr_layerBucket, b)
@@ -102,3 +113,19 @@ package db
 //@   loop 1: invariant true
 //@   loop 2: invariant true
 //@   loop 3: invariant true
+
+// hashers (C20): Hash is a function of the hasher and the bytes
+//@ property C20
+//@ smt all (declare-fun hasher_hash (Iface BSeq) BSeq)
+//@ func (h Hasher) Hash(v) (r)
+//@   iface
+//@   trusted
+//@   pure
+//@   ensures seq(r) == hasher_hash(h, seq(v))
+//@ func (h Hasher) Name() (r)
+//@   iface
+//@   trusted
+//@   pure
+//@ func (bk BucketID) Hasher() (h)
+//@   trusted
+//@   pure
